@@ -88,14 +88,14 @@ def _run(case):
 
 def _sparse(case):
     W = [[Fraction(x) for x in row] for row in case['W']]
-    lg = np.array([[math.log(x.numerator) - math.log(x.denominator) for x in row] for row in W])
+    lg = np.array([[math.log(x.numerator) - math.log(x.denominator) for x in row] for row in W]).reshape(len(W), case['C'])
     lg[lg == 0.0] = 1e-300
     e = _engine(16)
     e.line_padding_px = 0
     e.max_input_horizontal_pixels = 10000
     e.run_ocr = lambda batch: (['x'], [lg.copy()])
     with contextlib.redirect_stdout(io.StringIO()):
-        tr, out, coords = e.process_lines([np.zeros((H_PX, lg.shape[0] * SS, 3), dtype=np.uint8)], sparse_logits=True)
+        tr, out, coords = e.process_lines([np.zeros((H_PX, max(lg.shape[0] * SS, 2), 3), dtype=np.uint8)], sparse_logits=True)
     dense = out[0].toarray()
     kept = [[bool(dense[t, c] != 0) for c in range(lg.shape[1])] for t in range(lg.shape[0])]
     bad = []
